@@ -535,6 +535,18 @@ func (e *Env) binary(x *EBinary) (Val, error) {
 		}
 		return Val{T: t, S: SBool}, nil
 	case "<", "<=", ">", ">=":
+		if a.S == SStr && b.S == SStr {
+			switch x.Op {
+			case "<":
+				return Val{T: sx("str.lt", a.T, b.T), S: SBool}, nil
+			case ">":
+				return Val{T: sx("str.lt", b.T, a.T), S: SBool}, nil
+			case "<=":
+				return Val{T: not(sx("str.lt", b.T, a.T)), S: SBool}, nil
+			default:
+				return Val{T: not(sx("str.lt", a.T, b.T)), S: SBool}, nil
+			}
+		}
 		if a.S == SF64 && b.S == SF64 {
 			op := map[string]string{"<": "f.lt", "<=": "f.leq", ">": "f.gt", ">=": "f.geq"}[x.Op]
 			return Val{T: sx(op, a.T, b.T), S: SBool}, nil
